@@ -11,6 +11,10 @@ CHECKS = {
          "Every generated core-language program is executed by the real interpreter and by an independently written reference interpreter; value (structural), error condition, ordered effect trace from host probe builtins and debug-print output must agree. Sampled exploration with measured coverage of constructs, construct pairs and builtin x argument-type signatures; not exhaustive.",
          "Trusts harness/refint as the statement of the reference semantics (docs/lang.md + docstrings; pinned behaviour where they are silent); error messages and map-key spelling are not compared; programs the model declines (fuel, constructs outside its scope) are not judged.",
          "DESIGN.md 4/C01"),
+ "C02": ("exploration", "twin execution (elimination on / off / profiler) + stack-height time series from a host builtin + hook assertion at every tail elision",
+         "Tail loops over every chain of <=2 tail-position wrappers x 5 call forms x 3 recursion kinds x 3 definers (longer chains sampled) are run for several iteration counts while a host builtin samples the physical stack each turn (must not grow) and a source hook inspects every elided frame (terminal, never TROBlock); loops through handler-bind / ignore-errors / load-string must keep their frames; generated programs are compared across elimination on, off (dormant debugger) and profiler.",
+         "Trusts the dormant-debugger configuration as 'elimination off'; twin pairs whose elimination-off run hits a stack/step limit are not judged; tail positions reached through builtins outside the listed wrappers are not covered.",
+         "DESIGN.md 4/C02"),
 }
 
 ALL = ["C%02d" % i for i in range(1, 21)]
